@@ -84,7 +84,8 @@ def _fjsp_part(ctx, rng, torch, nx, coll, count=True):
                                          [rng.choice(["random", "wait", "nowait"]) for _ in rows], rng.randint(0, 2))
                     if out["crash"] or out["rewards"] is None:
                         coll.fail(SIG % kind, C.fjsp_replay_obj(kind, mno, out, xs[0], {
-                            "composition": name, "what": "the batch containing the instance crashed: %r" % (out["crash"],),
+                            "composition": name, "what": "the batch containing the instance crashed or reports a non-integral / infinite reward "
+                                                         "(solo: %r): %r %r" % (solo["rewards"][0], out["crash"], out.get("rewards_raw")),
                             "solo": {"instance": X, "actions": plan, "reward": solo["rewards"][0]}}))
                         continue
                     for b in xs:
